@@ -370,6 +370,14 @@ def kg_truth(x):
     return x*1
 
 
+def kg_is_true(q, backend):
+    """
+    Klong truth of a value, as a conditional tests it: 0 (0.0), [] and "" are
+    false, everything else is true.
+    """
+    return not ((backend.is_number(q) and q == 0) or is_empty(q))
+
+
 def str_to_chr_arr(s, backend):
     """
     Convert string to character array.
